@@ -2,6 +2,7 @@ package props
 
 import (
 	"fmt"
+	"go/types"
 	"sort"
 
 	"golang.org/x/tools/go/ssa"
@@ -90,10 +91,18 @@ func c16Resolve(c *Ctx, px string) *c16Fns {
 		}
 		t := vb.Of(e.Results[0], e.Instr)
 		_, ok := ana.Match("bin<==>(call<*>(concat(call<*>(p0), p1)), 1)", t)
-		r.Check(ok, px+".verify-gate.term", c.ipos(e.Instr), "verify(hrp, data) = (polymod(expand(hrp) ‖ data) == 1) and nothing else: %s", short(t.String(), 260))
+		// the same with a polymod that takes the running state and is fed the parts one after the other (a left fold,
+		// C16.polymod-linear.*): polymod(polymod(1, expand(hrp)), data)
+		_, okS := ana.Match("bin<==>(call<*>(call<*>(1, call<*>(p0)), p1), 1)", t)
+		okS = okS && !ok && calleeOf(t.Arg(0)) != nil && calleeOf(t.Arg(0)) == calleeOf(t.Arg(0).Arg(0))
+		r.Check(ok || okS, px+".verify-gate.term", c.ipos(e.Instr), "verify(hrp, data) = (polymod(expand(hrp) ‖ data) == 1) and nothing else: %s", short(t.String(), 260))
 		if ok {
 			out.polymod = calleeOf(t.Arg(0))
 			out.expand = calleeOf(t.Arg(0).Arg(0).Arg(0))
+		}
+		if okS {
+			out.polymod = calleeOf(t.Arg(0))
+			out.expand = calleeOf(t.Arg(0).Arg(0).Arg(1))
 		}
 	}
 	if out.polymod == nil || out.expand == nil {
@@ -142,6 +151,19 @@ type stepMap struct {
 	vCol   [8]uint32  // image of v bit j
 }
 
+// polymodArgs: the arguments that make the polymod routine run over vals from the initial state — vals alone, or
+// (1, vals) for a routine that takes the running state first.
+func polymodArgs(c *Ctx, fn *ssa.Function, vals bitdom.Val) []bitdom.Val {
+	if len(fn.Params) == 2 {
+		signed := true
+		if bt, ok := fn.Params[0].Type().Underlying().(*types.Basic); ok && bt.Info()&types.IsUnsigned != 0 {
+			signed = false
+		}
+		return []bitdom.Val{bitdom.ConstBV(1, c.wordBits(), signed), vals}
+	}
+	return []bitdom.Val{vals}
+}
+
 func c16Polymod(c *Ctx, fn *ssa.Function) *stepMap {
 	r := c.R
 	in := bitdom.New(c.P.SSA, c.wordBits())
@@ -167,7 +189,10 @@ func c16Polymod(c *Ctx, fn *ssa.Function) *stepMap {
 		return nil, true
 	}
 	vals := in.SymSlice("v", 1, 8, 8, false)
-	_, err := in.Call(fn, []bitdom.Val{vals})
+	// a polymod handed the running state: (state, values); the state a call starts from is decided at the calls
+	stream := len(fn.Params) == 2
+	vi := len(fn.Params) - 1
+	_, err := in.Call(fn, polymodArgs(c, fn, vals))
 	if chkPhi == nil || chkSym == nil {
 		r.Undec("C16.polymod-linear.extract", c.P.Pos(fn.Pos()), "no loop-carried checksum state found in the polymod routine (%v)", err)
 		return nil
@@ -228,6 +253,33 @@ func c16Polymod(c *Ctx, fn *ssa.Function) *stepMap {
 			}
 		}
 	}
+	if stream {
+		// the loop starts from the state parameter; every call in the package hands it the literal 1 or the result of
+		// another call of this routine, so every chain of calls starts at 1
+		for i, e := range chkPhi.Edges {
+			if chkPhi.Block().Preds[i].Index < chkPhi.Block().Index && e == ssa.Value(fn.Params[0]) {
+				initOK = true
+			}
+		}
+		nCalls := 0
+		for _, g := range c.P.RepoFuncs("pkg/bech32") {
+			for _, ci := range ana.Calls(g) {
+				if ci.Common().StaticCallee() != fn {
+					continue
+				}
+				nCalls++
+				switch a := ci.Common().Args[0].(type) {
+				case *ssa.Const:
+					initOK = initOK && a.Value != nil && a.Value.ExactString() == "1"
+				case *ssa.Call:
+					initOK = initOK && a.Call.StaticCallee() == fn
+				default:
+					initOK = false
+				}
+			}
+		}
+		initOK = initOK && nCalls > 0
+	}
 	r.Check(initOK, "C16.polymod-linear.initial-state", c.P.Pos(fn.Pos()), "checksum state starts at 1")
 	retOK := false
 	for _, e := range ana.Exits(fn) {
@@ -240,7 +292,7 @@ func c16Polymod(c *Ctx, fn *ssa.Function) *stepMap {
 	b := ana.NewBuilder(c.P, fn)
 	whole := false
 	for _, l := range rangeLoops(b) {
-		if l.Coll.IsParam(0) {
+		if l.Coll.IsParam(vi) {
 			whole = true
 		}
 	}
@@ -411,7 +463,7 @@ func c16Create(c *Ctx, fns *c16Fns) {
 	for i := 0; i < 6; i++ {
 		arr.Elems = append(arr.Elems, bitdom.ConstBV(0, 8, false))
 	}
-	ex3, err := in2.Call(fns.polymod, []bitdom.Val{&bitdom.Slice{A: arr, Len: len(arr.Elems), Cap: len(arr.Elems)}})
+	ex3, err := in2.Call(fns.polymod, polymodArgs(c, fns.polymod, &bitdom.Slice{A: arr, Len: len(arr.Elems), Cap: len(arr.Elems)}))
 	if err != nil {
 		r.Undec("C16.verify-gate.create-term", "", "polymod: %v", err)
 		return
